@@ -5,6 +5,18 @@ props = [json.loads(l) for l in open(os.path.join(VERIF, "properties.jsonl"))]
 ids = [p["id"] for p in props]
 
 CHECKS = {
+ "C01": dict(
+   text="Proof: props/C01.v states, for every netlist (any components, any complex matrices, any connections incl. feedback loops, "
+        "multi-links, disconnected parts, one-port terminations, any exposure subset) and every merge schedule, that a result returned "
+        "by the model of Structure.join / the elimination loop of Solver.solve reports the solution of the network equations at every "
+        "remaining pin (join_sound, solve_sound), and that the model refuses a result if a connection was not eliminated. Closed under "
+        "the global context. The same definitions run under vm_compute against Solver.solve of /repo on random reflective, "
+        "non-reciprocal, lossy, multi-link, partially exposed circuits built through the public API in both styles, with scrambled pin "
+        "index maps; Coq compares every coefficient between exposed pins within 1e-9.",
+   note="Trusted: Coq kernel + vm_compute; Bignums/Uint63 primitives for the executed instance only; hand-written model tied by sampled "
+        "correspondence; harness. Theorems conditional on the model returning Ok (all inner systems met by the schedule invertible). "
+        "The model follows the fixed code (F01: self-connections are rejected).",
+   technique="Coq proof (all netlists, all schedules) + vm_compute correspondence vs implementation", design="§5 C01"),
  "C18": dict(
    text="Proof: props/C18.v states, for every dimension triple and every scalar field satisfying the laws of Field.v, that "
         "the model of S_matrix.add is the exact elimination of the shared ports (soundness, existence and uniqueness of the "
